@@ -850,3 +850,102 @@ Print Assumptions stored_noise_linear_thm.
 Theorem stored_noise_instance_thm : ex_accepted = true /\ ex_stored_ok = true.
 Proof. exact stored_noise_instance. Qed.
 Print Assumptions stored_noise_instance_thm.
+
+(* ================================================================ package G, third round (review R3) *)
+Require Import LV.Lin.LuQI2 LV.SelfCal.VMatrixQI LV.SelfCal.ExactOverSatisfiable.
+
+(* full_rank_on now binds w_offset to the value the code uses (woff_of: the equations of the systems
+   before s); with a free offset the premise was unsatisfiable (weights read beyond the vector are 0).
+   CORE FORM of the fixed-point theorem: the solver premise is solver_exact_on -- on the coefficient
+   matrices of this solve, a consistent system of full column rank is answered by its solution (what
+   solver_spec implies: ExactOverProofs.solver_spec_exact_on); only N 0 = 0 is needed of N. *)
+Theorem exact_data_fixed_point_core_thm : forall (K : CField) (N : K -> Qc) (rsqrt : Qc -> Qc) (ofq : Qc -> K)
+  (minv : nat -> list K -> option (list K))
+  (solve_sq solve_ls : nat -> list (list K) -> list K -> option (list K)),
+  N c0 = 0 ->
+  forall (p : vprob K) (xs : list (list K)) (tol : Qc) (limit : nat) (xinit : list K) (st_prev : vstate K),
+  blocks_wf K p xs -> data_exact K ofq p xs ->
+  (forall es, In es (vp_systems p) -> (vp_unknowns p <= length es)%nat) -> (2 <= limit)%nat ->
+  full_rank_on K ofq minv p xs (calc_weights K N rsqrt p) (init_v_matrices K (v_n K p) st_prev) ->
+  v_regular K minv p xs ->
+  solver_exact_on K ofq minv solve_sq solve_ls p xs (calc_weights K N rsqrt p) (init_v_matrices K (v_n K p) st_prev) ->
+  exists st' ns, solve_frequency K N rsqrt ofq minv solve_sq solve_ls tol limit xinit st_prev p
+                 = SOk (concat xs, st', ns) /\
+                 Forall (fun n => (1 <= n <= 2)%nat) ns /\ length ns = length (vp_systems p).
+Proof. exact exact_data_fixed_point_core. Qed.
+Print Assumptions exact_data_fixed_point_core_thm.
+
+(* SATISFIABLE, by APPLYING the theorem: every premise is proved for the instance ex_on (T8 1 x 1, four
+   reflect standards, the library's term lists, noise model on, weights 1/(1 + radicand)):
+   ex_blocks, ex_data (from the boolean forms by reflection), ex_counts, ex_full_rank (both V states the
+   solve reaches, certificate: the least-squares oracle answers), ex_regular, ex_solver *)
+Theorem exact_data_fixed_point_satisfiable : forall (tol : Qc) (limit : nat) (xinit : list qi), (2 <= limit)%nat ->
+  exists st' ns, solve_frequency QIF qi_nrm ex_rsqrt qi_of_Qc q_minv q_solve_sq q_solve_ls tol limit xinit (alloc_v QIF ex_on) ex_on
+                 = SOk (concat xs0, st', ns) /\
+                 Forall (fun n => (1 <= n <= 2)%nat) ns /\ length ns = length (vp_systems ex_on).
+Proof.
+  intros tol limit xinit Hl.
+  exact (exact_data_fixed_point_core_thm QIF qi_nrm ex_rsqrt qi_of_Qc q_minv q_solve_sq q_solve_ls qi_nrm_c0
+           ex_on xs0 tol limit xinit (alloc_v QIF ex_on) ex_blocks ex_data ex_counts Hl ex_full_rank ex_regular ex_solver).
+Qed.
+Print Assumptions exact_data_fixed_point_satisfiable.
+
+(* the end-to-end theorem applied to the same instance: statistic 0, p-value 1, not rejected *)
+Theorem exact_data_never_rejected_satisfiable : forall (exp erfc sqrt : Qc -> Qc) (pi tol : Qc) (limit : nat) (xinit : list qi)
+  (ms : mstate) (findex : nat) (plimit : Qc), (2 <= limit)%nat -> plimit <= 1 ->
+  exists st' ns,
+    solve_frequency QIF qi_nrm ex_rsqrt qi_of_Qc q_minv q_solve_sq q_solve_ls tol limit xinit (alloc_v QIF ex_on) ex_on
+      = SOk (concat xs0, st', ns) /\
+    forall nf tr,
+    fst (calc_stat QIF c0 c1 cadd cmul copp qi_nrm (vp_unknowns ex_on) nf tr (concat xs0)
+                   (pv_systems QIF ex_on st' 0 (vp_systems ex_on)) None) = 0 /\
+    calc_pvalue QIF c0 c1 cadd cmul copp qi_nrm exp erfc sqrt pi (vp_unknowns ex_on) nf tr (concat xs0)
+                (pv_systems QIF ex_on st' 0 (vp_systems ex_on)) None = 1 /\
+    solve_rejects QIF c0 c1 cadd cmul copp qi_nrm exp erfc sqrt pi ms plimit findex (vp_unknowns ex_on) (concat xs0)
+                  (pv_systems QIF ex_on st' 0 (vp_systems ex_on)) None = false.
+Proof. exact exact_data_never_rejected_satisfiable_l. Qed.
+Print Assumptions exact_data_never_rejected_satisfiable.
+
+(* stored_noise_at_knot_thm APPLIED to the instance of VMatrixNoiseExample (state_wf, fresh_ok, the
+   accepted call, lengths, gaps, the knot: all discharged) *)
+Theorem stored_noise_at_knot_satisfiable :
+  exists v, q_run_args ex_mdx ex_env None (ex_h ++ [(ex_fresh, ex_call)]) = Some v /\
+            fst (nth 1 v (0, 0)) = gq ex_nf 1 /\ snd (nth 1 v (0, 0)) = gq ex_tr 1.
+Proof.
+  exact (stored_noise_at_knot_thm ex_mdx ex_mdx_pos ex_env ex_h None ex_fresh ex_call ex_fv ex_nf _ _ 1%nat 1%Z
+           I ex_fresh_ok eq_refl ex_lower_accepts eq_refl eq_refl
+           ex_n_ge2 ex_n_le4 ex_n_le4 ex_tr_len ex_gaps ex_j ex_k eq_refl).
+Qed.
+Print Assumptions stored_noise_at_knot_satisfiable.
+
+(* PHYSICAL EXACTNESS COMPOSED INTO data_exact (2-port T8 / TE10 and U8 / UE10, one system, 7 unknowns):
+   a problem all of whose equations are built by build_terms_t8 / _u8 from standards measured through an
+   error network with terms x (sd_sk arbitrary) satisfies the premise data_exact of the theorems above *)
+Theorem physical_data_exact_t8_2x2_thm : forall (K : CField) (ofq : Qc -> K) (p : vprob K) (es : list veq)
+  (ts0 ts1 ti0 ti1 tx0 tx1 tm1 : K),
+  let x := [ts0; ts1; ti0; ti1; tx0; tx1; tm1] in
+  vp_unknowns p = 7%nat -> vp_systems p = [es] ->
+  (forall e, In e es -> from_network_2x2 K build_terms_t8 (t8_relation K) p x e) ->
+  data_exact K ofq p [x].
+Proof. exact t8_2x2_data_exact. Qed.
+Print Assumptions physical_data_exact_t8_2x2_thm.
+
+Theorem physical_data_exact_u8_2x2_thm : forall (K : CField) (ofq : Qc -> K) (p : vprob K) (es : list veq)
+  (um1 ui0 ui1 ux0 ux1 us0 us1 : K),
+  let x := [um1; ui0; ui1; ux0; ux1; us0; us1] in
+  vp_unknowns p = 7%nat -> vp_systems p = [es] ->
+  (forall e, In e es -> from_network_2x2 K build_terms_u8 (u8_relation K) p x e) ->
+  data_exact K ofq p [x].
+Proof. exact u8_2x2_data_exact. Qed.
+Print Assumptions physical_data_exact_u8_2x2_thm.
+
+(* ofq (the conversion double -> double complex, a Section variable of VMatrixModel): the theorems above
+   hold for EVERY ofq; its intended laws -- ofq 0 = 0, ofq 1 = 1, additive, multiplicative,
+   |z ofq(a)|^2 = a^2 |z|^2 -- hold of the conversion qi_of_Qc used by every instance *)
+Theorem ofq_instance_laws_thm :
+  qi_of_Qc 0 = @c0 QIF /\ qi_of_Qc 1 = @c1 QIF /\
+  (forall a b, qi_of_Qc (a + b) = @cadd QIF (qi_of_Qc a) (qi_of_Qc b)) /\
+  (forall a b, qi_of_Qc (a * b) = @cmul QIF (qi_of_Qc a) (qi_of_Qc b)) /\
+  (forall a (z : qi), qi_nrm (@cmul QIF z (qi_of_Qc a)) = a * a * qi_nrm z).
+Proof. exact qi_of_Qc_laws. Qed.
+Print Assumptions ofq_instance_laws_thm.
